@@ -421,6 +421,7 @@ func TestChainContradiction(t *testing.T) {
 		window := 3 * batch
 		brs := []*branch{A, B}
 		var hist [][]any
+		var chainA []*bftsim.Hdr // headers applied to branch A, oldest first: the window is DEFINED on this list, not read back from the module
 		for s := 0; s < steps; s++ {
 			g := rapid.IntRange(0, n-1).Draw(t, "gen")
 			if s < forkAt {
@@ -444,6 +445,7 @@ func TestChainContradiction(t *testing.T) {
 				}
 				maxGen[g] = h.H
 				lastHdr[g] = h
+				chainA = append(chainA, h)
 				hist = append(hist, []any{"AB", g, h.H, h.MHG, h.MHP})
 				continue
 			}
@@ -476,30 +478,80 @@ func TestChainContradiction(t *testing.T) {
 				maxGen[g] = h.H
 			}
 			lastHdr[g] = h
+			if cur == A {
+				chainA = append(chainA, h)
+			}
 			hist = append(hist, []any{onBranch[g], g, h.H, h.MHG, h.MHP})
+		}
+		// Boundary phase (added after seeded change C07-o: window one header short): one validator stays away while the others
+		// extend branch A until its latest header on A sits at a drawn position around the oldest place of the 3-round window.
+		v := rapid.IntRange(0, n-1).Draw(t, "byz")
+		boundary := ""
+		if rapid.IntRange(0, 2).Draw(t, "boundaryPhase") > 0 {
+			var others []int
+			for i := range onBranch {
+				if i != v && onBranch[i] == 0 {
+					others = append(others, i)
+				}
+			}
+			lastOnA := -1
+			for i := len(chainA) - 1; i >= 0; i-- {
+				if bytes.Equal(chainA[i].Gen, gens[v]) {
+					lastOnA = i
+					break
+				}
+			}
+			if len(others) > 0 && lastOnA >= 0 {
+				pos := window - 2 + rapid.IntRange(0, 3).Draw(t, "boundaryPos") // position from the newest header (0-based): window-1 is the oldest inside
+				for len(chainA)-1-lastOnA < pos {
+					g := others[rapid.IntRange(0, len(others)-1).Draw(t, "boundaryGen")]
+					h := &bftsim.Hdr{H: A.tip + 1, Gen: gens[g], MHG: maxGen[g]}
+					h.MHP, _, _ = A.sim.Heights()
+					if A.sim.Contradicting(h) {
+						t.Fatalf("header of a protocol-following generator flagged: %+v on branch 0 (boundary phase) hist=%v", h, hist)
+					}
+					if err := A.sim.Apply(h, nil); err != nil {
+						t.Fatalf("apply %v", err)
+					}
+					A.tip++
+					A.tipMHP = h.MHP
+					maxGen[g] = h.H
+					lastHdr[g] = h
+					chainA = append(chainA, h)
+					hist = append(hist, []any{0, g, h.H, h.MHG, h.MHP})
+				}
+				if len(chainA)-1-lastOnA == pos {
+					boundary = fmt.Sprintf("latest-header-at-window-position-%+d", pos-(window-1)) // +0 = oldest inside, +1 = first outside
+				}
+			}
 		}
 		// Now a Byzantine header: take validator v's most recent header on branch A inside the window and build a header
 		// that contradicts it (LIP-0014 reference); the chain check must flag it, and equal the model otherwise.
-		v := rapid.IntRange(0, n-1).Draw(t, "byz")
 		vv, err := liskbft.VerifDumpVotes(A.sim.Store())
 		if err != nil {
 			t.Fatalf("%v", err)
 		}
-		var recent *liskbft.VerifBlockInfo
-		for i := range vv.Blocks {
-			if bytes.Equal(vv.Blocks[i].Generator, gens[v]) {
-				recent = &vv.Blocks[i]
+		// the validator's most recent header among the last 3*batchSize headers of branch A, from the harness's own record of the chain
+		// (reading it back from the module made the oracle blind to a window of the wrong length)
+		var recent *bftsim.Hdr
+		for i := len(chainA) - 1; i >= 0 && i >= len(chainA)-window; i-- {
+			if bytes.Equal(chainA[i].Gen, gens[v]) {
+				recent = chainA[i]
 				break
 			}
 		}
-		if len(vv.Blocks) > window {
-			t.Fatalf("window larger than 3*batchSize: %d", len(vv.Blocks))
+		wantLen := len(chainA)
+		if wantLen > window {
+			wantLen = window
+		}
+		if len(vv.Blocks) != wantLen {
+			t.Fatalf("the module keeps %d headers of branch A, the 3-round window of a %d-block chain holds %d (batchSize %d) hist=%v", len(vv.Blocks), len(chainA), wantLen, batch, hist)
 		}
 		cand := &bftsim.Hdr{H: A.tip + 1, Gen: gens[v], MHG: rapid.Uint32Range(0, A.tip+2).Draw(t, "bmhg"), MHP: rapid.Uint32Range(0, A.tip+1).Draw(t, "bmhp")}
 		got := A.sim.Contradicting(cand)
 		want := false
 		if recent != nil {
-			want = mbft.PairContradicting(recent.Height, recent.MaxHeightGenerated, recent.MaxHeightPrevoted, cand.H, cand.MHG, cand.MHP)
+			want = mbft.PairContradicting(recent.H, recent.MHG, recent.MHP, cand.H, cand.MHG, cand.MHP)
 		}
 		if got != want {
 			t.Fatalf("IsHeaderContradictingChain got %v want %v cand=%+v recent=%+v hist=%v", got, want, cand, recent, hist)
@@ -507,7 +559,13 @@ func TestChainContradiction(t *testing.T) {
 		if switched {
 			evid.R.Label("chain-with-switch", 1)
 		}
-		evid.R.Case(fmt.Sprintf("chain|%v|%v", hist, cand), switched && recent != nil, func() any {
+		if boundary != "" {
+			evid.R.Label("chain-"+boundary, 1)
+			if want {
+				evid.R.Label("chain-"+boundary+"-contradicting-candidate", 1)
+			}
+		}
+		evid.R.Case(fmt.Sprintf("chain|%v|%v", hist, cand), (switched || boundary != "") && recent != nil, func() any {
 			return map[string]any{"kind": "chain", "history(branch,gen,height,mhg,mhp)": hist, "byzantineCandidate": []uint32{cand.H, cand.MHG, cand.MHP}, "flagged": got}
 		}, "chain", fmt.Sprintf("chain-flagged-%v", got))
 	})
